@@ -98,6 +98,29 @@ def roundtrip(p):
     return mk('parquet_roundtrip', sig, pre, body)
 
 
+def big(p):
+    """larger files: row count and both batch sizes concrete (the control flow of dump / load does not depend on the row values, which stay symbolic)"""
+    n, bs, lb = p['n'], p['bs'], p['lb']
+    sig = [('v%d' % i, 'int') for i in range(n)]
+
+    def body(a):
+        rows = [dict(a=a[i], b='r%d' % i) for i in range(n)]
+        del FA.UNMODELLED[:]
+        with Env():
+            holder = FA.FFile()
+            done = []
+            D.src(rows).pipe(P.dump_to_file(holder, FA.FSchema(['a', 'b']), batch_size=bs)).subscribe(on_error=lambda e: done.append(('ERR', repr(e))), on_completed=lambda: done.append('C'))
+            written = [dict(a=r[0], b=r[1]) for r in holder.rows]
+            if done != ['C'] or written != rows or not holder.writer_closed or any(w > bs or w == 0 for w in holder.writes):
+                return fail(stage='dump_to_file', n=n, dump_batch=bs, observed_rows=len(written), writes=holder.writes, done=done)
+            got = []
+            P.load_from_file(holder, batch_size=lb).subscribe(on_next=got.append, on_error=lambda e: got.append(('ERR', repr(e))), scheduler=ImmediateScheduler())
+            if got != rows:
+                return fail(stage='load_from_file', n=n, load_batch=lb, observed_rows=len(got))
+        return True
+    return mk('parquet_big', sig, [], body)
+
+
 def stub_valid(p):
     def run():
         r = FA.validate()
@@ -105,7 +128,7 @@ def stub_valid(p):
     return run
 
 
-FAMILIES = {'roundtrip': roundtrip, 'stub_valid': stub_valid}
+FAMILIES = {'roundtrip': roundtrip, 'big': big, 'stub_valid': stub_valid}
 
 
 def obligations(tier, seed):
@@ -115,5 +138,7 @@ def obligations(tier, seed):
         obs.append(Ob(PROP, 'roundtrip', dict(n=n), budget=240 if q else 1500, bound=dict(rows=n, dump_batch='1..%d' % (n + 1), load_batch='1..%d' % (n + 1))))
         if n <= (4 if q else 7):
             obs.append(Ob(PROP, 'roundtrip', dict(n=n, path=True), budget=240 if q else 1500, bound=dict(rows=n, file='path + open_obj', dump_batch='1..%d' % (n + 1), load_batch='1..%d' % (n + 1))))
+    for (n, bs, lb) in ((17, 8, 5), (20, 16, 32), (33, 32, 7), (10, 3, 4), (64, 9, 64), (65, 64, 3)) if q else ((17, 8, 5), (20, 16, 32), (33, 32, 7), (10, 3, 4), (64, 9, 64), (65, 64, 3), (129, 128, 10), (200, 7, 33), (256, 256, 255)):
+        obs.append(Ob(PROP, 'big', dict(n=n, bs=bs, lb=lb), budget=240 if q else 900, group='larger files (concrete sizes, symbolic values)', bound=dict(rows=n, dump_batch=bs, load_batch=lb)))
     obs.append(Ob(PROP, 'roundtrip', dict(n=3, _twin='reach'), budget=60, expect='refute'))
     return obs
